@@ -2821,9 +2821,16 @@ identify_mpeg (uint32_t marker)
 static int
 guess_file_type (SF_PRIVATE *psf)
 {	uint32_t buffer [3], format ;
+	int want ;
 
 retry:
-	if (psf_binheader_readf (psf, "b", &buffer, SIGNED_SIZEOF (buffer)) != SIGNED_SIZEOF (buffer))
+	/* A complete file can be shorter than this buffer (a PVF header, the data fork of an SD2 file). */
+	want = SIGNED_SIZEOF (buffer) ;
+	if (psf->filelength - psf->fileoffset > 0 && psf->filelength - psf->fileoffset < want)
+		want = (int) (psf->filelength - psf->fileoffset) ;
+
+	memset (buffer, 0, sizeof (buffer)) ;
+	if (psf_binheader_readf (psf, "b", &buffer, want) != want)
 	{	psf->error = SFE_BAD_FILE_READ ;
 		return 0 ;
 		} ;
